@@ -31,6 +31,9 @@ let sres_bytes = function SOk b -> hex b | SErr w -> "ERR " ^ coqstr w
 let envint name d = try int_of_string (Sys.getenv name) with _ -> d
 let buf () = nat_of_int (envint "WV_BUF" 4)
 let hbuf () = nat_of_int (envint "WV_HBUF" 4)
+(* seed of the scheduler function of the translated whole-file runs: per line ("@S=<n>" before the operation) or WV_SRC_SCHED *)
+let line_seed = ref (-1)
+let sched_seed () = if !line_seed >= 0 then !line_seed else envint "WV_SRC_SCHED" 0
 let res_bytes = function
   | Ok b -> "OK " ^ hex b
   | Fail c -> "FAIL " ^ string_of_int (int_of_n c)
@@ -132,6 +135,30 @@ let handle_src (w : Stdlib.String.t list) : Stdlib.String.t =
   | ["cmph"; hb; hm; k; data; stored] ->
       (match Model.src_cmphmac (nat_of_int (int_of_string hb)) (n_of_int (int_of_string hm)) (unhex k) (unhex data) O (unhex stored) with
        | SOk b -> if b then "1" else "0" | SErr w -> "ERR " ^ coqstr w)
+  (* whole-file operations from translated source only (SrcRun5): the pipeline runs under the thread semantics with a
+     seed-driven scheduler (WV_SRC_SCHED; 0 = always the first enabled thread) *)
+  | "enc" :: cm :: hm :: t :: k :: seed :: plain :: _ ->
+      (match Model.src_encrypt_file (buf ()) (hbuf ()) (nat_of_int (int_of_string t)) (n_of_int (int_of_string cm)) (n_of_int (int_of_string hm))
+               (unhex plain) (unhex k) (unhex seed) (n_of_int (sched_seed ())) with
+       | SOk (((r, o), i), _) -> (if r then "OK " else "FAILED ") ^ hex o ^ (if i = unhex plain then "" else " INPUT-MODIFIED")
+       | SErr w -> "ERR " ^ coqstr w)
+  | ["dec"; t; k; f] ->
+      (match Model.src_decrypt_file (buf ()) (hbuf ()) (nat_of_int (int_of_string t)) (unhex f) (unhex k) (n_of_int (sched_seed ())) with
+       | SOk (((true, o), i), _) -> "OK " ^ hex o ^ (if i = unhex f then "" else " INPUT-MODIFIED")
+       | SOk (((false, o), _), _) ->
+           (* the result code is printed, not returned: it is the one verify() computes *)
+           (match Model.src_verify (hbuf ()) (nat_of_int (int_of_string t)) (unhex f) (unhex k) with
+            | SOk c -> "FAIL " ^ string_of_int (int_of_n c) ^ (if o = [] then "" else " OUTPUT " ^ hex o)
+            | SErr w -> "ERR " ^ coqstr w)
+       | SErr w -> "ERR " ^ coqstr w)
+  | ["verw"; t; k; f] ->
+      (match Model.src_verify_file (buf ()) (hbuf ()) (nat_of_int (int_of_string t)) (unhex f) (unhex k) (n_of_int (sched_seed ())) with
+       | SOk (((true, o), _), _) -> "OK -" ^ (if o = [] then "" else " OUTPUT " ^ hex o)
+       | SOk (((false, o), _), _) ->
+           (match Model.src_verify (hbuf ()) (nat_of_int (int_of_string t)) (unhex f) (unhex k) with
+            | SOk c -> "FAIL " ^ string_of_int (int_of_n c) ^ (if o = [] then "" else " OUTPUT " ^ hex o)
+            | SErr w -> "ERR " ^ coqstr w)
+       | SErr w -> "ERR " ^ coqstr w)
   | ["ver"; t; k; f] ->
       (match Model.src_verify (hbuf ()) (nat_of_int (int_of_string t)) (unhex f) (unhex k) with
        | SOk c -> if int_of_n c = 0 then "OK -" else "FAIL " ^ string_of_int (int_of_n c)
@@ -300,6 +327,10 @@ let () =
       let line = input_line stdin in
       match String.split_on_char ' ' (String.trim line) with
       | id :: rest when id <> "" ->
+          let rest = (match rest with
+                      | t :: r when String.length t > 3 && String.sub t 0 3 = "@S=" ->
+                          line_seed := (try int_of_string (String.sub t 3 (String.length t - 3)) with _ -> 0); r
+                      | _ -> line_seed := -1; rest) in
           let r = (try handle rest with e -> "EXC " ^ Printexc.to_string e) in
           print_string id; print_char ' '; print_string r; print_newline ()
       | _ -> ()
